@@ -534,6 +534,7 @@ pub fn send_cmd_ctx<C: ConnFactory<Pkt = RespPacket>>(
         },
     };
 
+    crate::verif_point!("manager:between-migration-map-and-cluster-map");
     cmd_ctx.log_event(TaskEvent::SentToCluster);
     let res = meta_map.cluster_map.send(cmd_ctx);
 
